@@ -69,6 +69,13 @@ def steady_zoo():
                     ("A = A[-1]*exp(ga) * exp(e)", "Y = A[-1] * n^0.5", "n = 0.3*n[-1] + 0.7"),
                     dict(ga=0.02), dict(A=2.0, Y=2.0, n=1.0), False, logvars=("A", "Y"), shocks=("e",), fix_level=("A",),
                     assign_extra={"A": (2.0, 1.02), "Y": (2.0, 1.02)}))
+    # linear=True models WITH a steady plan (the plan must be honoured for linear models too)
+    Z.append(SModel("lin_drift_fix", ("l", "g"),
+                    ("l = l[-1] + g + e", "g = 0.5*g[-1] + 0.1"),
+                    dict(), dict(l=3.0, g=0.1), False, shocks=("e",), fix_level=("l",), assign_extra={"l": (3.0, 0.2)}, linear=True))
+    Z.append(SModel("lin_swap", ("x", "y"),
+                    ("x = 0.5*x[-1] + a + 0*e", "y = 0.25*x + 0.5*y[-1]"),
+                    dict(a=1.0), dict(x=3.0, y=1.5), True, shocks=("e",), swap=(("x", "a"),), linear=True))
     Z.append(SModel("ur_drift", ("l", "g"),
                     ("l = l[-1] + g + e", "g = 0.5*g[-1] + 0.1"),
                     dict(), dict(l=1.0, g=0.1), False, shocks=("e",), fix_level=("l",), assign_extra={"l": (1.0, 0.2)}))
@@ -194,6 +201,16 @@ def check_model(run, ir, sm, split):
     with SteadyLift(ir) as L, S.Path() as path, contextlib.redirect_stdout(io.StringIO()):
         m.solve_steady(**kw)
     if not L.blocks:
+        if sm.linear and plan is not None:
+            # the linear solver (lstsq) ran: nothing was lifted.  The plan conjunct is then decided on the reported numbers.
+            run.extra["executed_obligations"] = run.extra.get("executed_obligations", 0) + 1
+            lv = _clean(m.get_steady_levels())
+            for n in list(sm.fix_level) + [v for v, _ in sm.swap]:
+                want = sm.assign_extra.get(n, sm.init.get(n))
+                want = want[0] if isinstance(want, tuple) else want
+                if isinstance(lv[n], S.SReal) or abs(float(lv[n]) - float(want)) > 1e-9:
+                    run.counterexample(key, finding + ":fixed", f"linear model: {n} fixed/exogenized by the steady plan at {want} is reported as {lv[n]}", dict(case, what="fixed"))
+                    return
         run.unknown(key, "the solver stub was never called")
         return
     levels = _clean(m.get_steady_levels())
@@ -258,14 +275,14 @@ def main(run):
         "_calculate_steady_incidence_matrix,_update_variant_with_final_guess}", "incidences.blazer.blaze (concrete incidence)", "simultaneous._variants.Variant.{create_steady_array,"
         "retrieve_*,update_*_from_array}", "plans.steady_plans.SteadyPlan (fix_level, exogenize/endogenize)", "reached through Simultaneous.solve_steady / get_steady_levels / get_steady_changes",
     ]
-    run.bounds["structures"] = ("steady zoo of 6 nonlinear models (stationary with log-variables and real exponents; stationary with a !! steady variant; "
+    run.bounds["structures"] = ("steady zoo of 6 nonlinear models and 2 linear=True models with steady plans (stationary with log-variables and real exponents; stationary with a !! steady variant; "
                                 "exogenized variable/endogenized parameter; balanced growth with log-variables; unit root with drift), flat in {T,F} as the model "
                                 "requires, split_into_blocks in {T,F}, steady plans fixing a level / swapping; parameters at fixed values")
     run.bounds["values"] = "the solver's answer g is an arbitrary real vector satisfying ||f(g)||inf < func_tolerance; exact arithmetic"
     run.stubs += ["steadiers.solver_dispatcher.neqs_levenberg -> fresh symbols g + assumption ||eval_func(g)||inf < func_tolerance, success=True "
                   "(success criterion of neqs.levenberg with step_tolerance=inf, norm_order=inf)"]
     run.assumptions += ["cells are mathematical reals", "exp/log of numeric constants are evaluated in floats, hence the claim is |residual| < 2*tolerance given ||f||inf < tolerance", "LOG/EXP uninterpreted with normalising constructors; x**a = EXP(a LOG x)", "denominators in the source equations non-zero"]
-    run.outside += ["that the iteration converges, or to which root", "dates other than t (and t+1 in growth mode)", "scipy_root", "linear models (fords.steadiers, lstsq)", "multiple variants"]
+    run.outside += ["that the iteration converges, or to which root", "dates other than t (and t+1 in growth mode)", "scipy_root", "linear models without a steady plan (fords.steadiers, lstsq)", "multiple variants"]
     for sm in steady_zoo():
         for split in (True, False):
             if run.tier == "quick" and not split and sm.name in ("stat_nl_swap", "ur_drift"):
